@@ -96,3 +96,15 @@ package polling
 //@     before[a_finished_poll_is_a_hit_or_a_miss] (res.Status == PollHit || res.Status == PollMiss) && arg(0) == res && arg(1) == nil
 //@   at return 6
 //@     before[claiming_more_but_sending_nothing_marks_the_peer_failed] res.Status == PollFailed && res.ReceivedCertificates == 0 && arg(0) == res && arg(1) == nil
+
+// A poller starts where its store is: at the instance after the latest stored certificate (0 for an empty store), with
+// the power table of that instance.
+//@ func NewPoller
+//@   property C20 C16
+//@   requires storeInv(store)
+//@   modifies auto
+//@   maypanic
+//@   at GetPowerTable 1
+//@     before[the_table_of_the_instance_after_the_latest_certificate_is_loaded] arg(0) == store && arg(2) == nextInstance && ite(res(Latest, 1) == nil, nextInstance == 0, res(Latest, 1).GPBFTInstance < 18446744073709551615 ==> nextInstance == res(Latest, 1).GPBFTInstance + 1) && argOf(Latest, 1, 0) == store
+//@   at return 2
+//@     before[the_poller_starts_at_that_instance_with_that_table] arg(1) == nil && arg(0).NextInstance == nextInstance && arg(0).PowerTable == res(GetPowerTable, 1, 0) && res(GetPowerTable, 1, 1) == nil && arg(0).Store == store && arg(0).SignatureVerifier == verifier
